@@ -645,15 +645,7 @@ def finished_workflows(ctx, r7, completed, S):
 def _cas_success_guard(cfg, node, cas_node):
     """node is dominated by the edge on which `self.set_state(...)` (the test
     in cas_node) returned a truthy value."""
-    for (t, pol, gn) in cfg.guards(node):
-        if not isinstance(t, ast.expr):
-            continue
-        calls = [x for x in ast.walk(t) if isinstance(x, ast.Call) and
-                 U.call_name(x) == 'set_state']
-        if not calls:
-            continue
-        neg = isinstance(t, ast.UnaryOp) and isinstance(t.op, ast.Not)
-        inner = t.operand if neg else t
-        if isinstance(inner, ast.Call) and U.call_name(inner) == 'set_state':
-            return (pol and not neg) or (not pol and neg)
+    for a, truth in U.guard_atoms(cfg, node):
+        if isinstance(a, ast.Call) and U.call_name(a) == 'set_state':
+            return truth is True
     return False
